@@ -53,6 +53,27 @@ type mCase struct {
 	Ts     []float64 `json:"ts"`              // branch lengths
 	Split  float64   `json:"split"`           // s = Split*t, P(t) = P(s) P(t-s)
 	Regime string    `json:"regime"`          // how the parameters were drawn (class only)
+	// Default: the model object is used as its constructor leaves it, without InitModel; the
+	// parameters above are then the constructor's defaults (JC; K2P kappa = 1, "Default 1.0" in
+	// k2p.go; F84 kappa = 1 and equal frequencies, the values NewF84Model sets)
+	Default bool `json:"default,omitempty"`
+}
+
+// defaultCase: the parameters a constructor sets, for the models that have some (F81, TN93 and GTR
+// have no eigen system before InitModel, a ProtModel no rate matrix)
+func defaultCase(name string, ts []float64) (mCase, bool) {
+	c := mCase{Model: name, Ts: ts, Split: 0.5, Regime: "constructor defaults", Default: true}
+	switch name {
+	case "jc":
+	case "k2p":
+		c.Kappa = 1
+	case "f84":
+		c.Kappa = 1
+		c.Pi = []float64{0.25, 0.25, 0.25, 0.25}
+	default:
+		return c, false
+	}
+	return c, true
 }
 
 var dnaModels = []string{"jc", "k2p", "f81", "f84", "tn93", "gtr"}
@@ -460,6 +481,9 @@ func buildModel(c mCase) (models.Model, error) {
 	if err != nil {
 		return nil, err
 	}
+	if c.Default {
+		return m, nil
+	}
 	return m, initModel(m, c)
 }
 
@@ -499,6 +523,12 @@ func maxDiff(a, b matrix) (d float64, at [2]int) {
 
 func domainOK(c mCase) bool {
 	in := func(v, lo, hi float64) bool { return v >= lo && v <= hi }
+	if c.Default {
+		d, ok := defaultCase(c.Model, c.Ts)
+		if !ok || !sameParams(c, d) {
+			return false
+		}
+	}
 	if len(c.Ts) == 0 || !(c.Split > 0 && c.Split < 1) {
 		return false
 	}
@@ -812,14 +842,19 @@ func TestProtein(t *testing.T)    { pbt.Run(t, genProt, checkModel) }
 type reinitCase struct {
 	A mCase `json:"a"`
 	B mCase `json:"b"`
+	// Bad: length of a frequency vector that InitModel must refuse, tried between the valid calls
+	// (protein models; the nucleotide models validate nothing); -1 = none
+	Bad int `json:"bad"`
 }
 
 func genReinit(t *rapid.T) reinitCase {
 	var c reinitCase
+	c.Bad = -1
 	if rapid.IntRange(0, 5).Draw(t, "prot") == 0 {
 		c.A = genProt(t)
 		c.B = mCase{Model: c.A.Model}
 		fillProt(t, &c.B)
+		c.Bad = rapid.SampledFrom([]int{19, 21, -1, 0, 1, 40}).Draw(t, "bad")
 		return c
 	}
 	c.A = genDNA(t)
@@ -871,6 +906,13 @@ func checkReinit(c reinitCase) (o pbt.Outcome, err error) {
 		if early, e = models.NewPij(m, 1.0); e != nil {
 			return o, fmt.Errorf("%s: NewPij on a model with its default parameters: %v", name, e)
 		}
+	}
+	// round 0: the object as its constructor leaves it, where that is a usable model
+	if d, ok := defaultCase(name, c.A.Ts); ok {
+		if _, err = checkOn(m, d, &o); err != nil {
+			return o, fmt.Errorf("round 0 (model object as the constructor leaves it, no InitModel): %v", err)
+		}
+		o.Class("default-constructed model judged")
 	}
 	// round 1: A
 	if e = initModel(m, c.A); e != nil {
@@ -961,6 +1003,58 @@ func reinitGuarded(test string, m models.Model, c mCase) (err error) {
 	return
 }
 
+// rejectedInit: InitModel with a frequency vector of the wrong length on a model initialised with prev.
+// The call must be refused, and the model must remain ONE consistent model: its Pi() are the
+// frequencies of prev or the published ones (the documented default), and every clause holds for that
+// same parameter set.
+func rejectedInit(mod models.Model, prev mCase, n int, o *pbt.Outcome) error {
+	m, ok := mod.(*protein.ProtModel)
+	if !ok || n < 0 {
+		return nil
+	}
+	bad := make([]float64, n)
+	for i := range bad {
+		bad[i] = 1 / float64(n)
+	}
+	var e error
+	pbt.Guarded("TestReinit", prev, pbt.WatchdogLimit(20*time.Second), func() { e = m.InitModel(bad) })
+	if e == nil {
+		return fmt.Errorf("%s: InitModel accepts a vector of %d frequencies", prev.Model, n)
+	}
+	published := mCase{Model: prev.Model, Ts: prev.Ts, Split: prev.Split, Regime: "model-frequencies"}
+	var first error
+	for _, cand := range []mCase{prev, published} {
+		_, w, err := refmodels.ProtData(cand.Model)
+		if err != nil {
+			return err
+		}
+		if cand.Pi != nil {
+			w = cand.Pi
+		}
+		match := true
+		for i := 0; i < 20; i++ {
+			if math.Abs(m.Pi(i)-w[i]) > 1e-15 {
+				match = false
+			}
+		}
+		if !match {
+			continue
+		}
+		var scratch pbt.Outcome
+		if _, err = checkOn(m, cand, &scratch); err == nil {
+			o.Class("refused InitModel (%d frequencies): model left consistent", n)
+			return nil
+		}
+		if first == nil {
+			first = fmt.Errorf("Pi() gives the %s frequencies but: %v", cand.Regime, err)
+		}
+	}
+	if first == nil {
+		first = fmt.Errorf("Pi() gives neither the frequencies in use before the call nor the published ones")
+	}
+	return fmt.Errorf("%s: after InitModel refused a vector of %d frequencies (%v) the model is not one consistent model any more: %v", prev.Model, n, e, first)
+}
+
 func checkReinitProtein(c reinitCase) (o pbt.Outcome, err error) {
 	name := c.A.Model
 	m, e := buildModel(c.A)
@@ -975,6 +1069,9 @@ func checkReinitProtein(c reinitCase) (o pbt.Outcome, err error) {
 	old, e := models.NewPij(m, tOld)
 	if e != nil {
 		return o, fmt.Errorf("%s: NewPij fails: %v", name, e)
+	}
+	if err = rejectedInit(m, c.A, c.Bad, &o); err != nil {
+		return o, fmt.Errorf("after round 1: %v", err)
 	}
 	if e = reinitGuarded("TestReinit", m, c.B); e != nil {
 		return o, fmt.Errorf("%s: InitModel with the second frequencies on a model already initialised and used fails: %v", name, e)
@@ -1004,6 +1101,9 @@ func checkReinitProtein(c reinitCase) (o pbt.Outcome, err error) {
 		if best > tol {
 			return o, fmt.Errorf("%s: a Pij object created before the model was re-initialised, moved to t=%g: P[%d][%d] = %.12g differs from exp(Qt) of the second frequencies by %.3g", name, t, at[0], at[1], old.Pij(at[0], at[1]), best)
 		}
+	}
+	if err = rejectedInit(m, c.B, c.Bad, &o); err != nil {
+		return o, fmt.Errorf("after round 2: %v", err)
 	}
 	if e = reinitGuarded("TestReinit", m, c.A); e != nil {
 		return o, fmt.Errorf("%s: InitModel with the first frequencies again fails: %v", name, e)
@@ -1072,6 +1172,13 @@ func TestCorners(t *testing.T) {
 			}
 			if !emit(mCase{Model: "jc"}) {
 				return
+			}
+			// the models as their constructors leave them (no InitModel)
+			for _, name := range []string{"jc", "k2p", "f84"} {
+				d, _ := defaultCase(name, ts)
+				if !yield(d) {
+					return
+				}
 			}
 			for _, k := range ks {
 				if !emit(mCase{Model: "k2p", Kappa: k}) {
